@@ -220,6 +220,15 @@ def check_sym(project: Project, rep):
     # result matrices: names assigned np.zeros((N, N))
     mats = [n.targets[0].id for n in ast.walk(f) if isinstance(n, ast.Assign) and isinstance(n.targets[0], ast.Name)
             and isinstance(n.value, ast.Call) and project.resolve(fi.module, n.value.func, locs) == "numpy.zeros"]
+    shared = [n for n in ast.walk(f) if isinstance(n, ast.Assign) and len(n.targets) >= 2
+              and all(isinstance(t, ast.Name) for t in n.targets) and isinstance(n.value, ast.Call)
+              and project.resolve(fi.module, n.value.func, locs) in ("numpy.zeros", "numpy.empty", "numpy.full")]
+    if shared:
+        names = [t.id for t in shared[0].targets]
+        rep.refuted("GH-SYM", fi, shared[0], f"`{ast.unparse(shared[0])}` binds {names} to ONE array: the lower and the upper "
+                                             f"bounds overwrite each other, so the two returned matrices are the same object",
+                    construct=f"{fi.qualname}: shared bound matrix")
+        return
     if len(mats) < 2:
         rep.unmodelled("GH-SYM", fi, f, "the two bound matrices were not found")
         return
